@@ -212,6 +212,9 @@ def _python_metadata(rep: common.Report, d, model_keys, include: bool, prop: str
     try:
         gen = py_common.generate(d, d / "dsdl" / "vt")
         res = py_common.python_metadata(gen, d / "dsdl" / "vt")
+        # the same evaluation on a package generated through the Python API right after a DECOY revision of the namespace (same names and
+        # layout, other constants and field names) in the same process: what an earlier run leaves behind must not leak into the output
+        res += py_common.python_metadata(py_common.generate_after_decoy(d, d / "dsdl" / "vt"), d / "dsdl" / "vt")
     except Exception as e:
         rep.unknown("py:metadata", f"{type(e).__name__}: {str(e)[-300:]}")
         return 0
